@@ -72,7 +72,7 @@ func genStep(r *sim.RNG, op string) sim.Step {
 	case "st.new_alloc":
 		st.A = r.Intn(8)
 		st.I = []int64{int64(r.Pick([]int{3, 4, 2, 1})), int64(r.Pick([]int{5, 3, 1})), int64(r.Pick([]int{4, 4, 4, 2, 2, 2, 1, 3})), ri(r, 8), int64(r.Pick([]int{5, 2, 1})),
-			int64(r.Pick([]int{1, 2, 4, 4, 3, 4})), ri(r, 5), ri(r, 16)}
+			int64(r.Pick([]int{1, 2, 4, 4, 3, 4})), ri(r, 5), ri(r, 16), int64(r.Pick([]int{14, 2, 1, 1}))}
 	case "st.update_alloc":
 		st.A = callerKind(r)
 		st.I = []int64{ri(r, 8), allocMode(r), int64(r.Pick([]int{5, 2, 3, 1, 0})), ri(r, 2), optIdx(r, 45, 8), optIdx(r, 35, 8), int64(r.Pick([]int{3, 2, 3, 2})), ri(r, 4), optIdx(r, 92, 6)}
@@ -315,7 +315,7 @@ func genStorage(r *sim.RNG, p *sim.Plan, tier string, prof *profile) {
 	boot = append(boot, sim.Step{Op: "block", I: []int64{0, 1}})
 	for i := 0; i < 1+g.Intn(2); i++ {
 		s := genStep(g, "st.new_alloc")
-		s = withI(withI(s, 2, int64(g.Pick([]int{2, 3, 3, 1, 0, 0, 0, 2}))), 5, int64(2+g.Intn(4)))
+		s = withI(withI(withI(s, 2, int64(g.Pick([]int{2, 3, 3, 1, 0, 0, 0, 2}))), 5, int64(2+g.Intn(4))), 8, 0)
 		boot = append(boot, s)
 	}
 
